@@ -29,6 +29,7 @@ def step (st : St) (ws : List String) : St × String :=
     | none => (st, "close invalid_state")
   | "image" :: _ => (st, "image")      -- file-level ops: judged by the checks, not by this model
   | "fhash" :: _ => (st, "fhash")
+  | "fsize" :: _ => (st, "fsize")
   | op :: args =>
     match st.store with
     | none => (st, s!"{op} closed")
@@ -37,7 +38,7 @@ def step (st : St) (ws : List String) : St × String :=
       match op, args with
       | "db", [id, fl] => upd (openDb s (natArg id) (natArg fl))
       | "dbdestroy", [id] => upd (destroyDb s (natArg id))
-      | "sync", _ => (st, "sync ok")
+      | "sync", _ => (st, if s.readonly then "sync readonly" else "sync ok")
       | "put", id :: k :: c :: v :: fl :: lvl :: rest =>
         upd (put s (natArg id) (hexArg k) (natArg c) (hexArg v) (natArg fl) ((lvl.toInt?.getD 0).toNat) (match rest with | [p] => natArg p | _ => 0))
       | "get", [id, k, c] => (st, get s (natArg id) (hexArg k) (natArg c))
